@@ -386,6 +386,23 @@ def check(P: Project, R: Report) -> None:
                 reraises = not (ho.normal or ho.ret or ho.cont or ho.brk)
                 if reraises:
                     R.ob("R5", f"{f.qual}: CancelledError handler re-raises", True, f"{rel}:{h.lineno}", "")
+                elif f is send:
+                    # the per-message routine runs inside the sender task: a CancelledError caught here may be the request's
+                    # future being cancelled (fine to absorb) or the sender task itself being cancelled by the cleanup
+                    # routine — absorbed, the task goes on to the next queued message and the cleanup's join never returns.
+                    # Every non-raising way out of the handler has established that the task has no pending cancel request.
+                    def _not_cancelling(st_) -> bool:
+                        for l_ in st_.lits:
+                            t_ = ha.origin(l_).replace("<", "").replace(">", "")
+                            if t_ in ("not asyncio.current_task().cancelling()", "asyncio.current_task() is None", "not asyncio.current_task()") or t_.endswith(".cancelling() == 0"):
+                                return True
+                        return False
+
+                    ends_ = list(ho.normal) + [s_ for s_, _n in ho.ret] + list(ho.cont) + list(ho.brk)
+                    ok_ = bool(ends_) and all(_not_cancelling(s_) for s_ in ends_)
+                    R.ob("R5", f"{f.qual}: a CancelledError absorbed in the per-message routine is the request's, never the sender task's own", ok_, f"{rel}:{h.lineno}",
+                         "the handler absorbs every CancelledError without asking whether the current task is being cancelled (`asyncio.current_task().cancelling()`): with a second message queued, the cleanup routine's `task.cancel()` is swallowed here, the sender goes on to the next message, and `await self._outgoing_task` — leaving the context — never returns",
+                         sample=f"R5 {f.qual}: absorbs only while the task has no pending cancel request")
                 else:
                     R.ob("R5", f"{f.qual}: absorbing CancelledError is justified", f.fq in absorbers, f"{rel}:{h.lineno}", absorbers.get(f.fq, "a handler swallows task cancellation: leaving the context may hang or leak the task"),
                          sample=f"R5 {f.qual}: {absorbers.get(f.fq, 'UNJUSTIFIED')[:70]}")
